@@ -269,6 +269,10 @@ class ProjectConfig:
                 return result, parsed_diagnostics
             except FileNotFoundError:
                 pass
+            except (OSError, UnicodeDecodeError) as err:
+                # Not a readable text file: a directory, a link leading nowhere, bytes that
+                # are not UTF-8
+                diagnostics.append(UnmarshallingError(str(err), 0))
             except util.TOMLDecodeErrorWithSourceInfo as err:
                 diagnostics.append(UnmarshallingError(str(err), err.lineno))
             except LoadError as err:
